@@ -163,6 +163,7 @@ def main():
     ]
     body = "\n".join(header + out) + "\n\n(* notes:\n" + "\n".join("   " + n for n in notes) + "\n*)\n"
     out_path = os.path.abspath(os.environ.get("TABLES_OUT", OUT))
+    os.makedirs(os.path.dirname(out_path), exist_ok=True)
     old = open(out_path).read() if os.path.exists(out_path) else None
     if old != body:
         with open(out_path, "w") as f:
